@@ -193,7 +193,9 @@ static int streamMessage(void *ptr, const MPT_STRUCT(message) *msg)
 			tmp.used = sizeof(hdr);
 			tmp.cont = 0;
 			tmp.clen = 0;
-			mpt_stream_reply(&srm->data, srm->rd.len, srm->rd.val, msg);
+			streamReply(rc, &tmp);
+			/* request is done even if the answer could not be sent */
+			srm->rd.len = 0;
 		}
 		return ret;
 	}
